@@ -957,21 +957,23 @@ def project_variant(t, v):
     return T('variant', v, t)
 
 
+SUCCESS_VARIANTS = ('Some', 'Ok', 'Continue')
+FAILURE_VARIANTS = ('None', 'Err', 'Break')
+
+
 def unwrap_variant(t, v):
-    """payload of Some / Ok / Continue: Option/Result wrappers are transparent on the success path"""
+    """payload of Some / Ok / Continue: Option / Result / ControlFlow wrappers are transparent on the success path
+    (`?` is modelled as the identity there), error alternatives are dropped"""
+    if v in SUCCESS_VARIANTS:
+        sv = success_value(t)
+        if sv is None:
+            return T('opaque', 'variant-mismatch')
+        return sv
     if t.tag == 'adt':
         if t[1].endswith('::' + v) and t[2]:
             return t[2][0][1]
         return T('opaque', 'variant-mismatch')
-    if t.tag == 'phi':
-        outs = []
-        for x in t.args:
-            if x.tag == 'adt' and not x[1].endswith('::' + v):
-                continue
-            outs.append(unwrap_variant(x, v))
-        if outs:
-            return mk_phi(outs)
-    return t
+    return T('field', '0', T('variant', v, t))
 
 
 # ---- traversal -------------------------------------------------------------------------------------
